@@ -53,8 +53,12 @@ impl<S: tracing::Subscriber> tracing_subscriber::Layer<S> for TapLayer {
             if let Some(n) = rest.split(' ').next().and_then(|n| n.parse::<usize>().ok()) {
                 if n == 0 {
                     _ = ZERO_READS.fetch_add(1, Ordering::SeqCst);
+                } else {
+                    let mut reads = READS.lock().unwrap();
+                    if reads.len() < 100_000 {
+                        reads.push(n);
+                    }
                 }
-                READS.lock().unwrap().push(n);
             }
         }
     }
